@@ -856,6 +856,8 @@ _COLS = "urwid/widget/columns.py"
 _CANV = "urwid/canvas.py"
 _TEXT = "urwid/widget/text.py"
 MUTANTS = [
+    Mut("twin-vscale-adjust-guard-ne", "urwid/widget/bar_graph.py", "GraphVScale.render", "        if maxrow - rows:", "        if maxrow != rows:", twin=True),
+    Mut("twin-shift-line-amount-ne-zero", "urwid/text_layout.py", "shift_line", "    if amount:\n        return [(amount, None), *segs]", "    if amount != 0:\n        return [(amount, None), *segs]", twin=True),
     Mut("padding-pack-arm-total-without-min-width", "urwid/widget/padding.py", "Padding.padding_values", "                maxcol = max(width, self.min_width or 1) + self.left + self.right\n", "                maxcol = width + self.left + self.right\n", "SIB|widget.padding.Padding.pack|pack-width total differs between pack and padding_values"),
     Mut("padding-blank-width-from-size", "urwid/widget/padding.py", "Padding.render", "size[0] if size else self.pack(size, focus)[0]", "size[0]", "GUARD|widget.padding.Padding.render|render: size[0] without a size test"),
     Mut("padding-pack-given-min-width", "urwid/widget/padding.py", "Padding.pack", "                self._width_amount + expand,\n", "                max(self._width_amount, self.min_width or 1) + expand,\n", "SIB|widget.padding.Padding.pack|given-width total differs between pack and padding_values"),
